@@ -2,7 +2,14 @@
 
     A case is ONE session of the real scheduler: the snapshot it was opened on
     ([k_init]: every pod with the status the snapshot gave it), what the
-    plugin reports right after session open, and the decisions taken in it.
+    plugin reports right after session open, and the decisions taken in it:
+    either driven by the harness through the session API (sequences), or taken
+    by the REAL actions -- allocate, then preempt / reclaim / consolidation --
+    and read off the Bind / TaskPipelined / Evict calls that reached the cache,
+    in commit order (action stream: per Statement.Commit the [ORelease] of
+    every Evict, then one [OAdmit] per job placed, the observation of the
+    session taken at the commit attached to the last of them, and an
+    [OCommitOk] with the session as each action leaves it).
     The sessions of a multi-cycle history are separate cases; the snapshot of a
     later cycle is what the harness derived from the end of the previous
     session (its label carries the whole history). *)
@@ -22,7 +29,12 @@ Inductive adm := AdmYes | AdmNo | AdmPanic.
 Inductive ostep :=
 | OProbe (jq : positive) (pre : bool) (ts : list otask) (vjob vnp : verdict)
     (* all three exported gates evaluated in the current state, nothing charged *)
-| OAdmit (jq : positive) (pre : bool) (ts : list otask) (vjob : verdict) (a : adm)
+| OAdmit (po bnd : bool) (jq : positive) (pre : bool) (ts : list otask) (vjob : verdict) (a : adm)
+    (* one AllocateJob of the real code. [po]: its isPipelineOnly argument (false: the allocate action, and
+       the sequences in which the harness plays AllocateJob through Statement.Allocate; true: the scenario
+       solvers of preempt / reclaim / consolidation). [bnd]: some task of it reached the cache as a Bind
+       (rather than a TaskPipelined) call. [vjob]: the real job-level gate on the usage right before it.
+       [a] = AdmYes: the real code placed the tasks [ts] (action stream: they reached the cache). *)
 | ORelease (tid : positive)
 | OCommitOk                       (* Statement.Commit of the preceding admitted job, every Cache.Bind succeeded *)
 | OBindFail (tid : positive).     (* Statement.Commit of the preceding admitted job, Cache.Bind failed for tid *)
@@ -117,6 +129,10 @@ Definition charges_agree (es : list entry) (ts : list otask) : bool :=
                     | None => false
                     end) (combine es ts).
 
+(** a Bind call needs a mode in which some task can be recorded as an allocation *)
+Definition placement_allowed (po bnd : bool) : bool :=
+  negb bnd || existsb (fun idle => match op_of po idle with OpAllocate => true | OpPipeline => false end) [true; false].
+
 Definition agree_step (fuel : nat) (s : state) (x : ostep) : bool * option state :=
   match x with
   | OProbe jq pre ts vjob vnp =>
@@ -129,12 +145,15 @@ Definition agree_step (fuel : nat) (s : state) (x : ostep) : bool * option state
                                           (is_task_allocation_on_node_over_capacity fuel qs jq pre (ot_task o) (ot_nm o)) v
                             | None => false
                             end) ts, Some s)
-  | OAdmit jq pre ts vjob a =>
+  | OAdmit po bnd jq pre ts vjob a =>
       let j := {| j_queue := jq; j_preempt := pre; j_tasks := tasks_of ts |} in
-      match admit_job fuel (s_queues s) j, a with
+      (* AllocateJob in the mode the real code ran it in: the job-level gate is demanded of the solver
+         actions, too -- a job the real code placed although the model's AllocateJob refuses it (whatever
+         the observed verdict says) falls into the last branch: a mismatch *)
+      match allocate_job po fuel (s_queues s) j, a with
       | Done (Accepted qs es), AdmYes =>
           (verdict_eqb vjob Schedulable && forallb (fun o => match ot_gate o with Some Schedulable => true | _ => false end) ts
-           && charges_agree (rev es) ts,
+           && charges_agree (rev es) ts && placement_allowed po bnd,
            Some {| s_queues := qs; s_ledger := es ++ s_ledger s |})
       | Done (Refused v), AdmNo =>
           ((if verdict_eqb vjob Schedulable
@@ -204,7 +223,7 @@ Fixpoint spods_of (min_mem : positive) (l : list ipod) : option (list spod) :=
 (** the pods the steps decide on are Pending pods of the same snapshot: they count in Request *)
 Definition step_pods (min_mem : positive) (xs : list (ostep * option obs)) : list spod :=
   flat_map (fun xo => match fst xo with
-                      | OProbe jq pre ts _ _ | OAdmit jq pre ts _ _ =>
+                      | OProbe jq pre ts _ _ | OAdmit _ _ jq pre ts _ _ =>
                           map (fun o => {| sp_task := t_id (ot_task o); sp_queue := jq; sp_preempt := pre; sp_status := Pending;
                                            sp_accepted := rq_zero; sp_request := pending_request min_mem (ot_task o) |}) ts
                       | _ => []
@@ -314,7 +333,8 @@ Fixpoint monitor_steps (qs : list queue) (led : list entry) (xs : list (ostep * 
   match xs with
   | [] => true
   | (OProbe _ _ _ _ _, _) :: r => monitor_steps qs led r
-  | (OAdmit jq pre ts vjob a, o) :: r =>
+  | (OAdmit _ _ jq pre ts vjob a, o) :: r =>
+      (* the property does not depend on the mode: bound and nominated count alike *)
       match a with
       | AdmYes =>
           match obs_entries jq pre ts with
@@ -332,6 +352,10 @@ Fixpoint monitor_steps (qs : list queue) (led : list entry) (xs : list (ostep * 
                  end
       | AdmPanic => true
       end
+  | (ORelease tid, None) :: r =>
+      (* an Evict that reached the cache, the pods not observed in between (action stream: the
+         evictions and placements of one Statement.Commit): the evicted pod no longer counts *)
+      monitor_steps qs (filter (fun e => negb (Pos.eqb (e_task e) tid)) led) r
   | (ORelease _, o) :: r | (OCommitOk, o) :: r | (OBindFail _, o) :: r =>
       (* nothing is let through by these steps: whatever the pods say afterwards
          must be within what was held before, must not raise any queue above a
